@@ -629,7 +629,7 @@ class UnitBuilder:
         else:
             self.emit_repo(text, ispec.file, first_line, item_id)
         self.fn_lines.append((first_out, len(self.lines), item_id))
-        m = re.search(r"\b(?:fn|struct|enum|const|static|type)\s+([A-Za-z_][A-Za-z0-9_]*)", text)
+        m = re.search(r"\bfn\s+([A-Za-z_][A-Za-z0-9_]*)", text) if it.kind == "fn" else re.search(r"\b(?:struct|enum|const|static|type)\s+([A-Za-z_][A-Za-z0-9_]*)", text)
         self.items.append(BuiltItem(ispec, it.kind, m.group(1) if m else it.name, impl_key, first_line, sha, text, canary, has_req))
 
     def _emit_repo_inline(self, chunk: str, file: str, first_line: int, item: str):
@@ -825,6 +825,18 @@ def run_unit(vc_path: str, repo: str, workdir: str, rlimit: int | None = None, t
         real_failures2.append(f)
     real_failures = real_failures2
     canaries_bad = sorted(canary_names - can_fail)
+    # vacuity guard (a): every extracted fn that is under contract and verified (not external_body)
+    # must be in Verus's per-function list with success
+    ok_fns = {f["function"].split("::")[-1] for f in functions if f["success"]}
+    failed_fn_names = {f.function for f in real_failures}
+    missing_fns = []
+    for bi in b.items:
+        if bi.kind != "fn" or "external_body" in bi.spec.opts:
+            continue
+        if not (bi.spec.sections.get("requires") or bi.spec.sections.get("ensures")):
+            continue
+        if bi.name not in ok_fns and bi.spec.path not in failed_fn_names and not any(bi.spec.path in l for l in b.lost):
+            missing_fns.append(bi.spec.path)
     n_can = len(canary_names)
     verified = vr.get("verified", 0)
     errors = vr.get("errors", 0)
@@ -839,6 +851,8 @@ def run_unit(vc_path: str, repo: str, workdir: str, rlimit: int | None = None, t
         status, reason = "undecided", "anchor lost (function kept with its contract assumed, not verified): " + "; ".join(b.lost)
     elif canaries_bad:
         status, reason = "undecided", "vacuous precondition: canary verified: " + ", ".join(canaries_bad)
+    elif missing_fns:
+        status, reason = "undecided", "functions under contract that Verus did not report as verified: " + ", ".join(missing_fns)
     elif errors != len(can_fail):
         # errors not attributed
         status, reason = "undecided", f"unattributed verus errors: errors={errors} canaries_failed={len(can_fail)}"
